@@ -12,6 +12,8 @@ from delivered import Delivered
 PID = 'C07'
 ACC_NATIVE = 'default=2;QuadraticConeConstraint=0;RotatedQuadraticConeConstraint=0;ExponentialConeConstraint=0;' \
              'PowerConeConstraint=0;GeometricConeConstraint=0;quadobj=2;nonconvexqc=1'
+# cones accepted natively too (the solution check then evaluates the cone constraints themselves); needs cvt:socp=2
+ACC_CONES = 'default=2;ExponentialConeConstraint=0;PowerConeConstraint=0;GeometricConeConstraint=0;quadobj=2;nonconvexqc=1'
 ACC_MIP = flatcheck.acc_of(flatcheck.base_config('g0'), 0)
 
 # (name, mode bits, var-bit, con-bit, obj-bit, idealistic?)
@@ -96,10 +98,11 @@ def work(job):
     st = collections.Counter(); viols = []; classes = set(); sample = None
     nl = m.nl()
     pts = candidate_points(m, tiny=(fam == 'linmix'))
-    for cfgname, acc, modes in (('native', ACC_NATIVE, MODES),):
+    for cfgname, acc, modes in ((('cones', ACC_CONES, MODES),) if fam == 'cones' else (('native', ACC_NATIVE, MODES),)):
         for (mname, bits, vb, cb, ob, ideal) in modes:
             for fail in ((0, 1) if mname in ('default', 'real-1+2', 'ideal-32+64+512') else (0,)):
                 opts = ('' if bits is None else 'sol:chk:mode=%d' % bits) + (' sol:chk:fail=1' if fail else '')
+                if cfgname == 'cones': opts += ' cvt:socp=2'
                 r = _srv.request('convert', nl=nl, opts=opts.strip(), acc=acc)
                 st['conversions'] += 1
                 if r.get('status') != 'ok' or 'PLApprox' in r.get('warnings', ''):
@@ -110,7 +113,7 @@ def work(job):
                     if cons_ok is None: continue
                     # true values of all expressions (a result variable gets the value of its defining
                     # expression even when conversion fixed its bounds)
-                    if cfgname == 'native':
+                    if cfgname in ('native', 'cones'):
                         a = true_values(D, r, p, len(m.vars))
                         if a is None:
                             st['aux_not_determined'] += 1; continue
@@ -264,17 +267,99 @@ def work_tol(job):
     return dict(st), viols[:20], sorted(classes), {'family': 'tolerances', 'model': m.describe()}
 
 
+def work_auxdev(job):
+    """One auxiliary value off: the value the solver reports for the result variable r of a functional constraint r = f(args)
+    deviates by 0.3 from f(args) in the direction that lets the solver cheat (r below f where the model bounds f from above /
+    minimises it, r above f where it bounds f from below / maximises it; both for equality and range).  Everything else holds at
+    the point, so the only reason to report is that a recomputed expression value differs from its mathematical value; in the
+    realistic modes that check constraints the report is demanded.  The harmless direction is observed, not judged."""
+    global _srv
+    if _srv is None: _srv = flatlib.Server(flatlib.build())
+    st = collections.Counter(); viols = []; classes = set()
+    sh = [t for t in flatgen.all_models('quick', ['shapes']) if '<-' not in t[1] and not t[1].startswith('log ')]
+    for fam, name, m in sh:
+        nl = m.nl(); nv = len(m.vars)
+        for mname, bits in (('default', None), ('real-1+2', 3), ('real-2', 2), ('real-8', 8)):
+            opts = '' if bits is None else 'sol:chk:mode=%d' % bits
+            r = _srv.request('convert', nl=nl, opts=opts, acc=ACC_NATIVE)
+            st['conversions'] += 1
+            if r.get('status') != 'ok' or 'PLApprox' in r.get('warnings', ''): st['skipped_conversion'] += 1; continue
+            D = Delivered(r, nv)
+            funcs = [c for c in D.cons if c['_k'] == 'func' and c['data'].get('res_var', -1) >= nv]
+            if len(funcs) != 1: st['auxdev_not_one_functional'] += 1; continue
+            res = funcs[0]['data']['res_var']
+            if D.vars[res][2]: st['auxdev_integer_result'] += 1; continue
+            # where the result variable is used: one row (coefficient c, sense) / the objective / only its bounds
+            uses = []
+            for c in D.cons:
+                if c is funcs[0]: continue
+                d = c['data']
+                if c['_k'] in ('lin', 'quad') or (isinstance(d, dict) and 'body' in d and 'rhs_or_range' in d):
+                    body = d['body']; lt = body['lin_terms'] if 'lin_terms' in body else body
+                    cf = sum(co for co, w in zip(lt['coefs'], lt['vars']) if w == res)
+                    inq = 'qp_terms' in body and (res in body['qp_terms']['vars1'] or res in body['qp_terms']['vars2'])
+                    if inq: uses.append(None)
+                    elif cf:
+                        rr = d['rhs_or_range']
+                        if isinstance(rr[0], str): lo, hi = {'LE': (-INF, rr[1]), 'GE': (rr[1], INF), 'EQ': (rr[1], rr[1])}[rr[0]]
+                        else: lo, hi = (rr[0] if rr[0] > -1e300 else -INF), (rr[1] if rr[1] < 1e300 else INF)
+                        uses.append((cf, lo, hi))
+                elif isinstance(d, dict) and (res in d.get('args', []) or d.get('res_var') == res): uses.append(None)
+            for o in r.get('objs', []):
+                if not o: continue
+                cf = sum(co for co, w in zip(o['lin']['coefs'], o['lin']['vars']) if w == res)
+                if res in o['qp']['vars1'] or res in o['qp']['vars2']: uses.append(None)
+                elif cf: uses.append((cf,) + ((-INF, 0.0) if o['sense'] == 0 else (0.0, INF)))   # min: like "<=", max: like ">="
+            if not uses:
+                lo, hi = D.vars[res][0], D.vars[res][1]
+                rootk = name.split(' in ')[-1] if name.startswith('con ') else None
+                want = {'[-inf,1]': (-INF, 1.0), '[1,inf]': (1.0, INF), '[1,1]': (1.0, 1.0), '[0,1.5]': (0.0, 1.5)}.get(rootk)
+                if want is None: st['auxdev_use_not_found'] += 1; continue
+                uses = [(1.0,) + want]
+            if len(uses) != 1 or uses[0] is None: st['auxdev_use_not_simple'] += 1; continue
+            cf, lo, hi = uses[0]
+            harmful = set()
+            if hi < INF: harmful.add(-1 if cf > 0 else 1)     # bounded from above / minimised: reporting less than f cheats
+            if lo > -INF: harmful.add(1 if cf > 0 else -1)
+            for pt in m.grid():
+                pt = list(pt)
+                bounds_ok, cons_ok = ref_status(m, pt, 'grid')
+                if not (bounds_ok and cons_ok): continue
+                a = true_values(D, r, pt, nv)
+                if a is None: st['aux_not_determined'] += 1; continue
+                for sgn in (-1, 1):
+                    x = [a[i] for i in range(D.nv)]
+                    x[res] += 0.3 * sgn
+                    if not (D.vars[res][0] - 1e-9 <= x[res] <= D.vars[res][1] + 1e-9): st['auxdev_outside_result_bounds'] += 1; continue
+                    v = _srv.request('check', x=','.join(repr(float(t)) for t in x), objs='', infeas='0')
+                    st['checks'] += 1
+                    got = not v.get('ok')
+                    dirn = 'harmful' if sgn in harmful else 'harmless'
+                    classes.add('auxdev|%s|%s|%s|%s' % (mname, funcs[0]['type'].split('<')[0], dirn, 'reported' if got else 'silent'))
+                    if sgn in harmful and not got:
+                        viols.append(('C07 missed-violation mode=%s: result of %s reported %s its true value by 0.3 where the model %s it' % (
+                                          mname, funcs[0]['type'].split('<')[0], 'below' if sgn < 0 else 'above',
+                                          'bounds it from both sides' if len(harmful) == 2 else
+                                          ('bounds it from above / minimises' if sgn * (1 if cf > 0 else -1) < 0 else 'bounds it from below / maximises')),
+                                      {'model': m.describe(), 'point': pt, 'x': x, 'result_var': res, 'true_value': a[res], 'opts': opts, 'answer': v},
+                                      {'nl': nl, 'opts': opts, 'acc': ACC_NATIVE, 'x': x, 'objs': ''}))
+                    elif sgn in harmful: st['violations_expected_and_reported'] += 1; st['auxdev_harmful_reported'] += 1
+                    else: st['auxdev_harmless_' + ('reported' if got else 'silent')] += 1
+    return dict(st), viols[:20], sorted(classes), {'family': 'auxiliary value off by 0.3', 'models': len(sh)}
+
+
+
 def models(tier):
-    fams = ['linmix', 'canon', 'uenc', 'sharing', 'fracint', 'bounds', 'dvars', 'compl', 'sos'] if tier == 'quick' else None
+    fams = ['linmix', 'canon', 'uenc', 'sharing', 'fracint', 'bounds', 'dvars', 'compl', 'sos', 'cones'] if tier == 'quick' else None
     out = []
     for i, (fam, name, m) in enumerate(flatgen.all_models('quick', fams)):
-        if fam in ('alldiffcont', 'cones', 'pl', 'unbounded', 'alg3', 'log3', 'affprod'): continue
+        if fam in ('alldiffcont', 'pl', 'unbounded', 'alg3', 'log3', 'affprod'): continue
         if fam == 'bounds' and name.startswith('dom5') and 'alldiff' in name: continue   # dom5 makes the third alldiff argument continuous (= alldiffcont)     # alldiff over non-integer expressions is refused by the converter;
         out.append((fam, name, m))                               # SOS/complementarity: auxiliaries not functionally determined
     sh = [(f, n, m) for (f, n, m) in flatgen.all_models('quick', ['shapes'])]
     if tier == 'quick':
         out += [t for t in sh if '<-' in t[1] and not t[1].startswith('log ')][::12]
-        out = [t for i, t in enumerate(out) if i % 2 == 0 or t[0] == 'sos']   # every 2nd model, but every SOS model (few, and the
+        out = [t for i, t in enumerate(out) if i % 2 == 0 or t[0] in ('sos', 'cones')]   # every 2nd model, but every SOS model (few, and the
         # members' sign patterns differ from model to model)
     else:
         out = [t for t in out if t[0] != 'shapes']                   # thorough: every model of every other family,
@@ -295,7 +380,7 @@ def main(tier, seed):
     jobs = [(fam, name, m, tier, i) for i, (fam, name, m) in enumerate(models(tier))]
     tot = collections.Counter(); classes = set()
     with Pool(vcheck.NCPU) as pool:
-        pending = [pool.apply_async(work_round, (None,)), pool.apply_async(work_tol, (None,))]
+        pending = [pool.apply_async(work_round, (None,)), pool.apply_async(work_tol, (None,)), pool.apply_async(work_auxdev, (None,))]
         for pd in pending:
             st, viols, cl, sample = pd.get()
             tot.update(st); classes.update(cl); chk.sample(sample)
